@@ -15,7 +15,7 @@ Oracle : vf.oracle.cons - the documented objective 1/2 (a-a0)'M(a-a0) + s(J a - 
            monotone     cost(final) <= min(cost(warmstart), cost(qacc_smooth)) (only qacc_smooth without warmstart)
            agreement    every solver / island / storage variant and the reference minimiser lie within their certified
                         distances of each other; all variants see bit-compatible problem data
-           pgs-kkt      PGS that stopped on its tolerance satisfies the fixed point f = -grad s(J a(f) - aref) loosely
+           pgs-gap      PGS that stopped on its tolerance has a small relative duality gap primal(a(f)) + dual(f)
 Non-trivial : >= 2 different zones of the piecewise cost are occupied at the solution (e.g. an active contact row and a
          saturated friction-loss row).
 """
@@ -35,7 +35,7 @@ K_FORCE = 1e4     # efc_force vs oracle force law: worst observed ~1e2 eps of (|
 K_DATA = 1e3      # problem data (J, aref, R, a0) between storage / island variants: worst observed 0 (bit-identical) .. 4 eps
 K_COST = 1e4      # cost comparisons, in eps units of the sum of the absolute cost terms
 C_REP = 2.0       # slack factor on the reported gradient statistic
-PGS_KKT = 1e-3    # loose relative fixed-point residual for a PGS run that stopped on tolerance 1e-14 (worst observed 2e-6)
+PGS_GAP = 1e-3    # loose relative duality gap of a PGS run that stopped on tolerance 1e-14 (worst observed 2e-7)
 
 
 def trace_scale(P, m):
@@ -118,7 +118,7 @@ def main(ck):
                     'no flex (implicit effective metric inactive), no geom adhesion',
                     'explicit contact pairs are only generated for geoms of jointed bodies (see report: static-static '
                     'pair + dense Jacobian + islands raises an engine error)']
-  stats = dict(max_grad_eps=0.0, max_force_eps=0.0, max_data_eps=0.0, max_pgs_kkt=0.0, max_cost_eps=0.0,
+  stats = dict(max_grad_eps=0.0, max_force_eps=0.0, max_data_eps=0.0, max_pgs_gap=0.0, max_cost_eps=0.0,
                max_agree_ratio=0.0, max_rep_ratio=0.0)
   ITER = 100 if ck.quick else 200
   probes(ck, lib)
@@ -176,9 +176,6 @@ def main(ck):
           raise Violation('problem layout: %s' % errs, bucket='problem-data')
         Sc = trace_scale(P, m)
         lam_min = float(np.linalg.eigvalsh(P.M)[0])
-        Lc = np.linalg.cholesky(P.M)
-        Y = np.linalg.solve(Lc, P.J.T)            # M^-1/2 J'
-        condH = 1.0 + float(np.linalg.eigvalsh((Y * P.D) @ Y.T)[-1])   # Hessian bound M + J'DJ in the M metric
         nisland = int(d.nisland)
       else:
         # all variants must see the same documented problem
@@ -310,20 +307,24 @@ def main(ck):
             if degenerate:
               mask[i:i + dim] = False
               labels.add('pgs:qcqp-degenerate-block')
-          kkt = float(np.linalg.norm((fE - fO)[mask]) / (np.linalg.norm(fE[mask]) + np.linalg.norm(fO[mask]) +
-                                                           EPS * np.linalg.norm(fscale[mask]) * 1e3 + 1e-300))
           labels.add('pgs:stopped')
           claim = 'pgs-stopped'
-          if condH > 1e8:
-            # the map y -> f has slope D: with D |J|^2 / M > 1e8 the force is not determined to any useful accuracy by
-            # an acceleration that is only converged to a tolerance (HARNESS rule 2: label + skip)
-            labels.add('pgs:illconditioned-skip')
+          if not np.all(mask):
+            labels.add('pgs:stopped-with-excepted-block')
           else:
-            stats['max_pgs_kkt'] = max(stats['max_pgs_kkt'], kkt)
-            if kkt > PGS_KKT:
-              raise Violation('%s: PGS stopped on tolerance after %s iterations but efc_force is not a fixed point of the '
-                              'documented force law: relative residual %.3g (cond %.3g)' % (tag, list(niter[:ni_used]), kkt,
-                                                                                          condH), bucket='pgs-kkt')
+            # certified suboptimality (doc "Warmstart": duality gap at the constraint forces): primal cost at
+            # a(f) = a0 + M^-1 J'f plus dual cost at f is >= 0 and vanishes only at the optimum; a negative value means f is
+            # outside Omega.  PGS only promises a small cost improvement per sweep, so the bound is loose (relative 1e-3).
+            dual = 0.5 * fE @ (ARo @ fE) + fE @ (Q.J @ Q.a0 - Q.aref)
+            primal = Q.cost(a)
+            gap = primal + dual
+            gscale = abs(primal) + abs(dual) + 1e3 * EPS * Q.cost_scale(a) + 1e-300
+            stats['max_pgs_gap'] = max(stats['max_pgs_gap'], abs(gap) / gscale)
+            if abs(gap) > PGS_GAP * gscale:
+              raise Violation('%s: PGS stopped on tolerance after %s iterations with relative duality gap %.3g (primal %.9g, '
+                              'dual %.9g): efc_force is %s' % (tag, list(niter[:ni_used]), gap / gscale, primal, dual,
+                                                               'not optimal' if gap > 0 else 'outside the admissible set'),
+                              bucket='pgs-gap')
         else:
           labels.add('pgs:unconverged')
       sols.append((tag, a, P.delta(P.grad(a)), claim, nn))
@@ -363,8 +364,8 @@ def main(ck):
                                newton_iters=[int(x) for x in niter[:3]]) if nt else None,
             labels=labs)
 
-  ck.run_hypothesis(test, gc.cases(max_bodies=5 if ck.quick else 7), ck.budget(220, 5000), name='solvers')
-  ck.extra['tolerances'] = dict(K_GRAD=K_GRAD, K_FORCE=K_FORCE, K_DATA=K_DATA, K_COST=K_COST, C_REP=C_REP, PGS_KKT=PGS_KKT)
+  ck.run_hypothesis(test, gc.cases(max_bodies=5 if ck.quick else 7), ck.budget(450, 6000), name='solvers')
+  ck.extra['tolerances'] = dict(K_GRAD=K_GRAD, K_FORCE=K_FORCE, K_DATA=K_DATA, K_COST=K_COST, C_REP=C_REP, PGS_GAP=PGS_GAP)
   ck.extra['worst_observed'] = {k: float('%.4g' % v) for k, v in stats.items()}
 
 
@@ -376,7 +377,7 @@ LEVEL_TEXT = '''Generated constrained states are solved by Newton, CG and PGS un
 variant. The engine's results are judged by an independent evaluation of the documented objective (conjugate of the dual
 problem, no zone formulas of the C code): force law, truthfulness of the solver's own convergence claims (self-stop with
 tolerance 0, reported gradient statistic), monotone decrease from the documented warm start, certified agreement of all
-variants with a damped-Newton reference minimiser, loose fixed-point residual for PGS runs that stopped on tolerance.'''
+variants with a damped-Newton reference minimiser, loose duality-gap bound for PGS runs that stopped on tolerance.'''
 LEVEL_NOTE = '''Sampled, not exhaustive. Problem data (M, J, aref, R) are the engine's own; only nv <= 40. Unconverged runs
 (iteration budget exhausted, PGS not stopped) are counted in the labels and only checked against their certified distance.
 noslip excluded (documented as not solving one problem); flex / adhesion excluded. Explicit pairs between two static geoms
